@@ -354,7 +354,7 @@ pub enum Target {
 
 pub fn run(plan: Plan, target: Target) -> Outcome {
     let n = plan.programs.len();
-    let abt = Arc::new(AtomicBaseTime::new());
+    let abt = Arc::new(if n % 2 == 1 { AtomicBaseTime::default() } else { AtomicBaseTime::new() });
     // Learn the address of the sequence word: install a probing hook for one `sequence()` call.
     struct Probe(Mutex<Option<usize>>);
     impl SyncHook for Probe {
